@@ -9,9 +9,12 @@ static size_t vx_stack_size, vx_stack_size0;
 static void vx_stack_push(int s) { vx_pushes++; vx_pushed_state = s; vx_stack_size++; }
 static void vx_stack_pop(void) { __CPROVER_assert(vx_stack_size >= 1, "[C05] pop_back on a non-empty state stack"); vx_pops++; vx_stack_size--; }
 /*@FUNC function_expression_step@*/
+static int vx_back_set;
 /*@FUNC rhs_expression_step@*/
+/*@FUNC multi_select_hash_step@*/
 #ifdef VX_CBMC
 static void setup_stack(void) { vx_stack_size = nondet_size(); __CPROVER_assume(vx_stack_size >= 1 && vx_stack_size <= SIZE_MAX / 2); vx_stack_size0 = vx_stack_size; }
+void h_multi_select_hash_step(void) { setup_stack(); vx_c = (char)nondet_u8(); vx_p = nondet_size(); vx_column = nondet_size(); __CPROVER_assume(vx_p <= SIZE_MAX / 2 && vx_column <= SIZE_MAX / 2); vx_p0 = vx_p; vx_pushes = 0; vx_pops = 0; vx_returned = false; int ec = 0; multi_select_hash_step(&ec); }
 void h_rhs_expression_step(void) { setup_stack(); vx_c = (char)nondet_u8(); vx_p = nondet_size(); vx_column = nondet_size(); __CPROVER_assume(vx_p <= SIZE_MAX / 2 && vx_column <= SIZE_MAX / 2); vx_p0 = vx_p; vx_pushes = 0; vx_pops = 0; vx_tokens = 0; vx_returned = false; int ec = 0; rhs_expression_step(&ec); }
 void h_function_expression_step(void) { setup_stack(); vx_c = (char)nondet_u8(); vx_p = nondet_size(); vx_column = nondet_size(); __CPROVER_assume(vx_p <= SIZE_MAX / 2 && vx_column <= SIZE_MAX / 2); vx_p0 = vx_p; vx_pushes = 0; vx_pops = 0; vx_tokens = 0; vx_returned = false; int ec = 0; function_expression_step(&ec); }
 #endif
